@@ -39,6 +39,7 @@ from __future__ import annotations
 import itertools
 import json
 import os
+import re
 from typing import Dict, List, Optional, Tuple
 
 from .. import common, kgen, server
@@ -399,6 +400,14 @@ def files() -> Dict[str, str]:
     return FILES
 
 
+_POS = re.compile(r"in position \d+(-\d+)?")
+
+
+def norm_pos(text: str) -> str:
+    """codec error texts echoed in replies carry an offset into the (run-directory dependent) path: not part of the behaviour"""
+    return _POS.sub("in position N", text)
+
+
 def do_run(reqs: List[str], dv: int, enc: str = "utf-8") -> server.Run:
     """in-process server life whose stdout is, like a real process's, a byte stream behind a strictly encoding text layer"""
     return server.run(files(), reqs, sdkconfig=SDK0, default_version=dv, aux=AUX, stdout_encoding=enc)
@@ -488,7 +497,7 @@ def check_case(r: common.Result, dv: int, rv: int, pi: int, c: dict, enc: str = 
             r.violation({"kind": "error_not_reported", "request_class": cls}, f"{ctx}: reply has no `error`: {main.lines[idx][:160]}", cs)
         if err is not None and not (isinstance(err, list) and err and all(isinstance(e, str) for e in err)):
             r.violation({"kind": "error_shape", "request_class": cls}, f"{ctx}: `error` is not a non-empty array of strings: {main.lines[idx][:160]}", cs)
-        r.outcome((cls, pi, dv, rv, main.lines[idx]))
+        r.outcome((cls, pi, dv, rv, norm_pos(main.lines[idx])))
     if c["expect"] == "valid" or len(main.lines) != len(reqs) + 1:
         return
     treqs = prior + ([c["twin"]] if c["twin"] is not None else []) + PROBES
@@ -669,8 +678,8 @@ def conformance_one(case: dict, sub: Optional[dict] = None) -> List[dict]:
     if sub is None:
         sub = run_sub(case)
     viols = []
-    if sub["raw"] != inproc.raw:
-        a, b_ = sub["lines"], inproc.lines
+    if norm_pos(sub["raw"]) != norm_pos(inproc.raw):
+        a, b_ = [norm_pos(x) for x in sub["lines"]], [norm_pos(x) for x in inproc.lines]
         fd = next((i for i, (x, y) in enumerate(zip(a, b_)) if x != y), min(len(a), len(b_)))
         bad_json = any(server.parse_reply(ln)[0] is None for ln in a)
         viols.append(
